@@ -858,7 +858,7 @@ fn random_flags(rng: &mut Rng, peers: &mut [PeerSpec]) {
 /// Per-node sharders appended to the flags: different shard counts / msb_ignore per node, some nodes without shards.
 fn add_sharders(rng: &mut Rng, peers: &mut [PeerSpec]) {
     const NRS: [u16; 14] = [1, 2, 3, 4, 5, 6, 7, 8, 12, 16, 255, 256, 1000, 65535];
-    const MSBS: [u8; 7] = [0, 1, 12, 12, 12, 31, 63];
+    const MSBS: [u8; 7] = [0, 0, 1, 12, 12, 31, 63];
     let mode = rng.below(8);
     let common = (*rng.pick(&NRS), *rng.pick(&MSBS));
     for p in peers.iter_mut() {
